@@ -146,7 +146,7 @@ func runWirePipeline(we *wireEnv, cases []*c13Case) {
 		cs.stage = "compile"
 	})
 	// compile both trees; attribute diagnostics per package
-	out, _ := pipe.RunGo(we.Dir, "build", "-buildvcs=false", "-gcflags=-e", "./w/...", "./k/...")
+	out, _ := bulkBuild(we.Dir, "build", "-buildvcs=false", "-gcflags=-e", "./w/...", "./k/...")
 	werrs := splitBuildErrors(string(out), "corpus/w/")
 	kerrs := splitBuildErrors(string(out), "corpus/k/")
 	for _, cs := range cases {
@@ -187,7 +187,7 @@ func executeCases(we *wireEnv, cases []*c13Case) (map[string][]symRec, error) {
 	fb, _ := json.Marshal(fails)
 	mustOK(os.WriteFile(filepath.Join(rd, "fails.json"), fb, 0o644))
 	bin := filepath.Join(rd, "runner")
-	if out, err := pipe.RunGo(we.Dir, "build", "-buildvcs=false", "-o", bin, "./run"); err != nil {
+	if out, err := bulkBuild(we.Dir, "build", "-buildvcs=false", "-o", bin, "./run"); err != nil {
 		return nil, fmt.Errorf("building the runner: %v\n%s", err, out)
 	}
 	cmd := exec.Command(bin, filepath.Join(rd, "fails.json"))
